@@ -52,9 +52,12 @@ def stepC19 (s : Unit) (ws : List String) : Unit × Resp :=
     match ciDegenerate c k.toNat! sc.toNat! n.toNat! (pconf conf) with
     | some (lo, hi) =>
       let p := point c k.toNat!
-      (s, { model := if lo == p && hi == p && p == c then "degenerate" else "nondegenerate",
-            spec := "degenerate" })
-    | none => (s, { model := "-", spec := "in01 ordered" })
+      -- the model is a function of the request alone (theorem `ci_history_independent`): `fresh-same`
+      (s, { model := (if lo == p && hi == p && p == c then "degenerate" else "nondegenerate") ++ " fresh-same",
+            spec := "degenerate fresh-same" })
+    -- the property on the computed interval, and: the answer does not depend on what this thread was
+    -- asked before (it equals the answer of a thread that was never asked anything)
+    | none => (s, { model := "-", spec := "in01 ordered fresh-same" })
   | ["cib", c, k, sc, n, conf] =>
     match ciDegenerate (pf c) k.toNat! sc.toNat! n.toNat! (pconf conf) with
     | some (lo, hi) => (s, { model := s!"{fb lo} {fb hi}", spec := s!"{fb (pf c + 0.0)} {fb (pf c + 0.0)}" })
